@@ -70,6 +70,8 @@ pub enum Expand {
     CorruptEvery { part: Part, sample: Option<usize>, seed: u64 },
     /// every subset of the disclosure list (KeepMask) — only if it has <= `max_n` entries
     Subsets { max_n: usize, sample: Option<usize>, seed: u64 },
+    /// every permutation of the disclosure list if it has <= `max_n` entries, else `sample` seeded ones
+    Permutations { max_n: usize, sample: usize, seed: u64 },
     /// truncation of the wire string at every `stride`-th prefix length
     TruncateWireEvery { stride: usize },
     /// every member of the JSON envelope replaced by each of a few wrongly-typed values
@@ -554,6 +556,45 @@ impl<'a> Exec<'a> {
                     for _ in 0..sample.unwrap_or(32) {
                         let mut c = plain.clone();
                         c.faults.insert(0, Fault::KeepMask(rng.next_u64()));
+                        out.push(c);
+                    }
+                }
+            }
+            Expand::Permutations { max_n, sample, seed } => {
+                let n = m.disclosures.len();
+                let mut rng = Rng::new(*seed);
+                if n >= 2 && n <= *max_n {
+                    // Heap's algorithm
+                    let mut a: Vec<usize> = (0..n).collect();
+                    let mut c = vec![0usize; n];
+                    let mut perms = vec![a.clone()];
+                    let mut i = 0;
+                    while i < n {
+                        if c[i] < i {
+                            if i % 2 == 0 {
+                                a.swap(0, i);
+                            } else {
+                                a.swap(c[i], i);
+                            }
+                            perms.push(a.clone());
+                            c[i] += 1;
+                            i = 0;
+                        } else {
+                            c[i] = 0;
+                            i += 1;
+                        }
+                    }
+                    for p in perms.into_iter().skip(1) {
+                        let mut c = plain.clone();
+                        c.faults.push(Fault::Permute(p));
+                        out.push(c);
+                    }
+                } else if n >= 2 {
+                    for _ in 0..*sample {
+                        let mut p: Vec<usize> = (0..n).collect();
+                        rng.shuffle(&mut p);
+                        let mut c = plain.clone();
+                        c.faults.push(Fault::Permute(p));
                         out.push(c);
                     }
                 }
